@@ -295,6 +295,20 @@ def _fmt_exc(exc: BaseException, stack) -> str:
     return f"{type(exc).__name__}: {exc}\n{tail}"[:1500]
 
 
+def _exc_clause(e: BaseException) -> str:
+    """An exception raised by the code under test is a violation ('unexpected-exception:<Type>').  One raised
+    directly by harness code -- typically an AttributeError on a private attribute that a refactoring renamed --
+    says that the harness no longer fits the code: 'harness-error:<Type>' (exit 3, never a VIOLATION)."""
+    tb = e.__traceback__
+    last = None
+    while tb is not None:
+        last = tb.tb_frame.f_code.co_filename
+        tb = tb.tb_next
+    if last and os.sep + os.path.join("symx", "harness") + os.sep in last and isinstance(e, (AttributeError, TypeError, NameError, KeyError, ImportError)):
+        return "harness-error:" + type(e).__name__
+    return "unexpected-exception:" + type(e).__name__
+
+
 def run_concrete(fn: Callable, params: dict, values: dict) -> dict:
     """Replay: run the harness on plain CPython with concrete inputs."""
     sym = Conc(values)
@@ -315,7 +329,7 @@ def run_concrete(fn: Callable, params: dict, values: dict) -> dict:
     except BaseException as e:  # unexpected exception = oracle failure as well
         return {
             "outcome": "violation",
-            "clause": "unexpected-exception:" + type(e).__name__,
+            "clause": _exc_clause(e),
             "detail": "".join(traceback.format_exception(e))[-1500:],
             "cov": sorted(cov.hits),
         }
